@@ -673,6 +673,9 @@ func resliceOfField(v ssa.Value, fld *types.Var, depth int) bool {
 	}
 	switch x := v.(type) {
 	case *ssa.Slice:
+		if x.Max != nil {
+			return false // f[:k:k]: the capacity is capped, the next append allocates
+		}
 		return loadsField(x.X, fld)
 	case *ssa.Phi:
 		for _, e := range x.Edges {
